@@ -7,8 +7,10 @@ RE_SETUP = re.compile(r'^  Set up (\S+) in (?:\d+ minutes )?[\d.]+ seconds\.$')
 RE_SETUP_START = re.compile(r'^  Set up (\S+) ')
 RE_TEARDOWN = re.compile(r'^  Tear down (\S+) (in (?:\d+ minutes )?[\d.]+ seconds\.|\.\.\. not supported)$')
 RE_TEARDOWN_START = re.compile(r'^  Tear down (\S+) ')
-RE_RAN = re.compile(r'^  Ran (\d+) tests with (\d+) failures, (\d+) errors and (\d+) skipped in ')
-RE_TOTAL = re.compile(r'^Total: (\d+) tests, (\d+) failures, (\d+) errors and (\d+) skipped in ')
+# (the colourised formatter writes ', N skipped' where the plain one writes ' and N skipped')
+RE_RAN = re.compile(r'^  Ran (\d+) tests with (\d+) failures, (\d+) errors(?: and|,) (\d+) skipped in ')
+RE_TOTAL = re.compile(r'^Total: (\d+) tests, (\d+) failures, (\d+) errors(?: and|,) (\d+) skipped in ')
+RE_ANSI = re.compile(r'\x1b\[[0-9;]*m')
 RE_SEED = re.compile(r'^Tests were shuffled using seed number (-?\d+)\.$')
 RE_ERR_IN = re.compile(r'^(Error|Failure) in test (.*)$')
 RE_ITER = re.compile(r'^Iteration (\d+)$')
@@ -49,12 +51,18 @@ _GLUE = re.compile(r'(Tk\d+q)(?=(?:Running \S* tests:|  Ran \d+ tests|Total: \d+
                    r'Tearing down left over layers:|Iteration \d+$|  Running:$|Listing \S* tests:))', re.M)
 
 
-_GLUE_TOTAL = re.compile(r'(?<=[^\n])(Total: \d+ tests, \d+ failures, \d+ errors and \d+ skipped in |'
-                         r'Running \S+ tests:$|  Ran \d+ tests with \d+ failures, \d+ errors and \d+ skipped in )', re.M)
+_GLUE_TOTAL = re.compile(r'(?<=[^\n])(Total: \d+ tests, \d+ failures, \d+ errors(?: and|,) \d+ skipped in |'
+                         r'Running \S+ tests:$|  Ran \d+ tests with \d+ failures, \d+ errors(?: and|,) \d+ skipped in )',
+                         re.M)
 
 
-def parse(text):
+def parse(text, progress=False):
+    """progress=True: the run used --progress, whose carriage returns separate what a terminal shows as lines"""
     p = Parsed()
+    if '\x1b[' in text:
+        text = RE_ANSI.sub('', text)     # --color
+    if progress:
+        text = text.replace('\r', '\n')
     # a test may leave an unterminated line (always ending in a 'Tk<n>q' token) in front of a runner line
     text = _GLUE.sub(lambda m: m.group(1) + '\n', text)
     # a child that died in the middle of a line leaves it unterminated in front of the parent's next line
